@@ -24,8 +24,11 @@ def shards(tier):
         {"name": "n1.np.interp", "mode": "interp", "backend": "np", "fn": "n1", "triples": 2000 if q else 13824},
         {"name": "n1.torch", "mode": "jit", "backend": "torch", "fn": "n1", "triples": 600 if q else 13824},
         {"name": "rand.np.jit", "mode": "jit", "backend": "np", "fn": "rand", "n": 500 if q else 40000},
+        {"name": "forms.np.jit", "mode": "jit", "backend": "np", "fn": "rand", "n": 120 if q else 5000, "forms": 1},
         {"name": "rand.np.interp", "mode": "interp", "backend": "np", "fn": "rand", "n": 100 if q else 3000},
         {"name": "rand.torch", "mode": "jit", "backend": "torch", "fn": "rand", "n": 100 if q else 4000},
+        {"name": "big.np.jit", "mode": "jit", "backend": "np", "fn": "big", "n": 1 if q else 12},
+        {"name": "big.torch", "mode": "jit", "backend": "torch", "fn": "big", "n": 1 if q else 3},
         {"name": "n2.torch", "mode": "jit", "backend": "torch", "fn": "n2", "lo": 0, "hi": 11520, "stride": 24 if q else 2},
         {"name": "n2.np.interp", "mode": "interp", "backend": "np", "fn": "n2", "lo": 0, "hi": 11520, "stride": 12 if q else 2},
     ]
@@ -262,3 +265,23 @@ def run_rand(shard, rec, B):
         if ok:
             rec.check("z2inv", np.array_equal(np.asarray(R) % 2, Mi) and np.array_equal((M @ np.asarray(R)) % 2, np.eye(n, dtype=np.int64)),
                       M, n > 1)
+
+
+def run_big(shard, rec, B):
+    """group laws on wide registers (word / byte thresholds) and Z2 inversion of matrices up to 260 x 260."""
+    rng = gen.rng_for(rec)
+    Ns = [16, 31, 32, 33, 63, 64, 65, 70] if B.name == "np" else [16, 33]
+    for t in range(shard["n"]):
+        for N in Ns:
+            a, b = O.random_map(rng, N, nrot=N + 4), O.random_map(rng, N, nrot=N + 4)
+            single_laws(rec, B, a, rng)
+            pair_laws(rec, B, a, b, rng, heavy=(N <= 33))
+        for n in ([127, 128, 129, 256, 260] if B.name == "np" else [64]):
+            while True:
+                M = rng.integers(0, 2, (n, n))
+                Mi = O.gf2inv(M)
+                if Mi is not None:
+                    break
+            ok, R = rec.attempt("z2inv", n, lambda: B.utils.z2inv(np.array(M, dtype=np.int64)))
+            if ok:
+                rec.check("z2inv", np.array_equal(np.asarray(R) % 2, Mi), ["big z2inv", n, int(M.sum())], True)
